@@ -1,6 +1,165 @@
-import Tahoe.Uri.Caps
+import Tahoe.Uri.LemmasCaps
 import Tahoe.Generated.Uri
+/-! C15 — capability strings round-trip and parse canonically (`uri.py`).
+
+The model (`Tahoe/Uri/Grammar.lean`, `Caps.lean`) is the grammar with the two repairs of
+`/verif/fixes/C15-canonical-numbers.diff` and `/verif/fixes/C15-chk-verifier-anchor.diff` applied;
+the `pattern_*` theorems below pin the regex source texts extracted from the working tree to the
+model's pattern data, so on an unrepaired tree `pattern_CHK` and `pattern_CHKV` fail by name.
+
+`print_parse` at full strength ("an accepted string re-serializes to exactly itself, apart from MDMF
+extension fields") is FALSE of the code and of the model: every `$`-anchored pattern also accepts one
+trailing "\n" (known finding `trailing-newline`).  It is replaced by the witness
+`print_parse_counterexample` and by `print_parse_partial` (guard: the input does not end in "\n").
+Throughout, an accepted string is compared after removing the single alleged prefix `ro.`/`imm.`
+that `from_string` consumes as context (`allegedBody`).
+-/
 namespace Tahoe.C15
 open Tahoe.Uri
-theorem stub : (1:Nat) = 1 := rfl
+open Tahoe.Generated
+
+set_option maxRecDepth 100000
+
+/-! ### the regex source texts, prefixes and dispatch order of the working tree -/
+
+theorem pattern_CHK : render (filePrefix .chk) (spec .chk) = Uri.RE_CHK := by decide
+theorem pattern_CHKV : render (filePrefix .chkV) (spec .chkV) = Uri.RE_CHKV := by decide
+theorem pattern_LIT : render (filePrefix .lit) (spec .lit) = Uri.RE_LIT := by decide
+theorem pattern_SSK : render (filePrefix .ssk) (spec .ssk) = Uri.RE_SSK := by decide
+theorem pattern_SSKRO : render (filePrefix .sskRo) (spec .sskRo) = Uri.RE_SSKRO := by decide
+theorem pattern_SSKV : render (filePrefix .sskV) (spec .sskV) = Uri.RE_SSKV := by decide
+theorem pattern_MDMF : render (filePrefix .mdmf) (spec .mdmf) = Uri.RE_MDMF := by decide
+theorem pattern_MDMFRO : render (filePrefix .mdmfRo) (spec .mdmfRo) = Uri.RE_MDMFRO := by decide
+theorem pattern_MDMFV : render (filePrefix .mdmfV) (spec .mdmfV) = Uri.RE_MDMFV := by decide
+
+/-- no MULTILINE / DOTALL / IGNORECASE: `^` only at offset 0, `$` only at the end or before a final newline -/
+theorem pattern_flags :
+    [Uri.RE_FLAGS_CHK, Uri.RE_FLAGS_CHKV, Uri.RE_FLAGS_LIT, Uri.RE_FLAGS_SSK, Uri.RE_FLAGS_SSKRO, Uri.RE_FLAGS_SSKV,
+     Uri.RE_FLAGS_MDMF, Uri.RE_FLAGS_MDMFRO, Uri.RE_FLAGS_MDMFV] = [0, 0, 0, 0, 0, 0, 0, 0, 0] := by decide
+
+/-- `BASE_STRING` of the nine file classes -/
+theorem file_prefixes :
+    FileKind.all.map filePrefix = [Uri.BASE_CHK, Uri.BASE_CHKV, Uri.BASE_LIT, Uri.BASE_SSK, Uri.BASE_SSKRO, Uri.BASE_SSKV,
+      Uri.BASE_MDMF, Uri.BASE_MDMFRO, Uri.BASE_MDMFV] := by decide
+
+/-- `BASE_STRING` of the nine directory classes (indexed by their INNER_URI_CLASS), their
+`BASE_STRING_RE` = `^` + BASE_STRING, and the INNER_URI_CLASS assignment itself -/
+theorem dir_prefixes :
+    FileKind.all.map dirPrefix = [Uri.DIR_BASE_CHK, Uri.DIR_BASE_CHKV, Uri.DIR_BASE_LIT, Uri.DIR_BASE_SSK, Uri.DIR_BASE_SSKRO,
+      Uri.DIR_BASE_SSKV, Uri.DIR_BASE_MDMF, Uri.DIR_BASE_MDMFRO, Uri.DIR_BASE_MDMFV] ∧
+    FileKind.all.map (fun k => 94 :: dirPrefix k) = [Uri.DIR_RE_CHK, Uri.DIR_RE_CHKV, Uri.DIR_RE_LIT, Uri.DIR_RE_SSK,
+      Uri.DIR_RE_SSKRO, Uri.DIR_RE_SSKV, Uri.DIR_RE_MDMF, Uri.DIR_RE_MDMFRO, Uri.DIR_RE_MDMFV] ∧
+    [Uri.DIR_INNER_CHK, Uri.DIR_INNER_CHKV, Uri.DIR_INNER_LIT, Uri.DIR_INNER_SSK, Uri.DIR_INNER_SSKRO, Uri.DIR_INNER_SSKV,
+      Uri.DIR_INNER_MDMF, Uri.DIR_INNER_MDMFRO, Uri.DIR_INNER_MDMFV] =
+    [[67, 72, 75], [67, 72, 75, 86], [76, 73, 84], [83, 83, 75], [83, 83, 75, 82, 79], [83, 83, 75, 86],
+     [77, 68, 77, 70], [77, 68, 77, 70, 82, 79], [77, 68, 77, 70, 86]] := by decide
+
+/-- `ro.` / `imm.` and the base32 alphabet -/
+theorem alleged_prefixes :
+    roPrefix = Uri.ALLEGED_READONLY_PREFIX ∧ immPrefix = Uri.ALLEGED_IMMUTABLE_PREFIX ∧ clsB32 = Uri.BASE32_CHARS := by
+  decide
+
+/-- the literals `from_string` tests with `startswith`, in source order -/
+theorem dispatch_order : dispatchTable.map (·.1) = Uri.DISPATCH_ORDER := by decide
+
+/-! ### parse ∘ print -/
+
+/-- Every well-formed capability object of every kind (9 file kinds, 9 directory kinds) serializes
+to a string that parses back to the *same* object (same kind, same fields), in every context that
+admits the kind. -/
+theorem parse_print (deep : Bool) (c : Cap) (hwf : c.wf = true) (hctx : ctxAllows deep c.tailKind = true) :
+    ∃ s, c.toString = some s ∧ fromString deep s = c :=
+  fromString_toString deep c hwf hctx
+
+/-- in the default context (`deep_immutable=False`) there is no side condition -/
+theorem parse_print_default (c : Cap) (hwf : c.wf = true) : ∃ s, c.toString = some s ∧ fromString false s = c :=
+  fromString_toString false c hwf (ctxAllows_false _)
+
+example : ∃ s, (Cap.dir .chk (.chk (List.replicate 16 7) (List.replicate 32 9) 3 10 (2 ^ 70))).toString = some s ∧
+    fromString true s = Cap.dir .chk (.chk (List.replicate 16 7) (List.replicate 32 9) 3 10 (2 ^ 70)) :=
+  parse_print true _ (by decide) (by decide)
+
+/-! ### strings outside the grammar -/
+
+/-- Every string accepted as a known capability is — after its alleged prefix — the canonical text of
+the returned (well-formed) capability itself, followed by nothing, by one "\n", or (MDMF kinds only)
+by ":" and an extension.  So a string is never read as a capability other than the one it spells. -/
+theorem accepted_is_own_text (deep : Bool) (u : Bytes) (c : Cap) (h : fromString deep u = c) (hk : c.isKnown = true) :
+    c.wf = true ∧ ∃ base tail, c.toString = some base ∧ allegedBody u = base ++ tail ∧ tailOk c.tailKind tail :=
+  fromString_known deep u c h hk
+
+/-- Strings outside the grammar (not of the form canonical-text ++ permitted-tail for any well-formed
+capability) are reported as `UnknownURI` carrying the original string. -/
+theorem unknown_outside (deep : Bool) (u : Bytes)
+    (hout : ¬ ∃ c : Cap, c.wf = true ∧ ∃ base tail, c.toString = some base ∧ allegedBody u = base ++ tail ∧
+      tailOk c.tailKind tail) :
+    ∃ e, fromString deep u = .unknown u e := by
+  cases hc : fromString deep u with
+  | unknown u' e =>
+    exact ⟨e, by rw [fromString_unknown_keeps deep u u' e hc]⟩
+  | file f => exact absurd ⟨_, fromString_known deep u _ hc rfl⟩ hout
+  | dir dk f => exact absurd ⟨_, fromString_known deep u _ hc rfl⟩ hout
+
+example : fromString false [85, 82, 73, 58, 76, 73, 84, 58, 98] = .unknown [85, 82, 73, 58, 76, 73, 84, 58, 98] (some .badURI) := by
+  decide   -- "URI:LIT:b": a lone base32 character is not an encoding of any byte string
+
+/-! ### print ∘ parse -/
+
+/-- FULL STATEMENT (false): `fromString deep u = c → c.isKnown → c.toString = some (allegedBody u) ∨ <MDMF extension>`.
+Witness: `URI:LIT:\n` is accepted as `LiteralFileURI(b"")`, whose text is `URI:LIT:`. -/
+theorem print_parse_counterexample :
+    ∃ (u : Bytes) (c : Cap), fromString false u = c ∧ c.isKnown = true ∧ c.toString ≠ some (allegedBody u) ∧
+      ¬ isMdmfKind c.tailKind := by
+  refine ⟨[85, 82, 73, 58, 76, 73, 84, 58, 10], .file (.lit []), by decide, rfl, by decide, ?_⟩
+  simp [isMdmfKind, Cap.tailKind, FileCap.kind]
+
+/-- The same for a mutable write cap: `URI:SSK:<26 a's>:<52 a's>\n` is accepted and printed without the newline. -/
+theorem print_parse_counterexample_ssk :
+    let s := filePrefix .ssk ++ List.replicate 26 97 ++ [58] ++ List.replicate 52 97
+    fromString false (s ++ [10]) = .file (.ssk (List.replicate 16 0) (List.replicate 32 0)) ∧
+    (Cap.file (.ssk (List.replicate 16 0) (List.replicate 32 0))).toString = some s := by
+  decide
+
+/-- Any accepted string that does not end in a newline re-serializes to exactly itself (after the
+alleged prefix), apart from the `:`-introduced extension of the MDMF kinds. -/
+theorem print_parse_partial (deep : Bool) (u : Bytes) (c : Cap) (h : fromString deep u = c) (hk : c.isKnown = true)
+    (hnl : u.getLast? ≠ some 10) :
+    c.toString = some (allegedBody u) ∨
+    (isMdmfKind c.tailKind ∧ ∃ base r, c.toString = some base ∧ allegedBody u = base ++ 58 :: r) := by
+  obtain ⟨_, base, tail, hb, hu, ht⟩ := fromString_known deep u c h hk
+  rcases ht with rfl | rfl | ⟨hm, r, rfl⟩
+  · left; rw [hb, hu, List.append_nil]
+  · exfalso
+    apply hnl
+    have hl : (allegedBody u).getLast? = some 10 := by rw [hu]; simp
+    have hne : allegedBody u ≠ [] := by rw [hu]; simp
+    simp only [allegedBody] at hl hne
+    split at hl
+    · rw [List.getLast?_drop] at hl; split at hl <;> simp_all
+    · split at hl
+      · rw [List.getLast?_drop] at hl; split at hl <;> simp_all
+      · exact hl
+  · right; exact ⟨hm, base, r, hb, hu⟩
+
+example : fromString false (roPrefix ++ filePrefix .lit ++ [109, 121]) = .file (.lit [0x66]) ∧
+    (Cap.file (.lit [0x66])).toString = some (allegedBody (roPrefix ++ filePrefix .lit ++ [109, 121])) := by decide
+
+/-! ### the two repaired defects, as witnesses on the patterns exactly as written -/
+
+/-- `CHKFileVerifierURI.STRING_RE` as written has no `$`: trailing junk is accepted and dropped. -/
+theorem asWritten_chk_verifier_junk :
+    let s := filePrefix .chkV ++ List.replicate 26 97 ++ [58] ++ List.replicate 52 97 ++ [58, 51, 58, 49, 48, 58, 53]
+    fromStringAsWritten false (s ++ [106, 117, 110, 107]) = .file (.chkV (List.replicate 16 0) (List.replicate 32 0) 3 10 5) ∧
+    (Cap.file (.chkV (List.replicate 16 0) (List.replicate 32 0) 3 10 5)).toString = some s ∧
+    fromString false (s ++ [106, 117, 110, 107]) = .unknown (s ++ [106, 117, 110, 107]) (some .badURI) := by
+  decide
+
+/-- `NUMBER = ([0-9]+)` as written accepts leading zeros, which `%d` does not reproduce. -/
+theorem asWritten_leading_zeros :
+    let p := filePrefix .chk ++ List.replicate 26 97 ++ [58] ++ List.replicate 52 97
+    fromStringAsWritten false (p ++ [58, 48, 51, 58, 49, 48, 58, 53]) = .file (.chk (List.replicate 16 0) (List.replicate 32 0) 3 10 5) ∧
+    (Cap.file (.chk (List.replicate 16 0) (List.replicate 32 0) 3 10 5)).toString = some (p ++ [58, 51, 58, 49, 48, 58, 53]) ∧
+    fromString false (p ++ [58, 48, 51, 58, 49, 48, 58, 53]) = .unknown (p ++ [58, 48, 51, 58, 49, 48, 58, 53]) (some .badURI) := by
+  decide
+
 end Tahoe.C15
